@@ -164,8 +164,8 @@ var c18Ids = func() []string {
 
 // per-peer situation: is it a local peer, and how does the pool list it as active
 var c18States = map[int][]string{
-	0: {"absent", "local", "local+same", "local+otherhost", "local+otherport", "local+noaddr", "local+bare", "listed-only"},
-	1: {"absent", "local", "local+same", "local+otherhost", "local+otherport", "local+bare", "listed-only"},
+	0: {"absent", "local", "local+same", "local+otherhost", "local+otherport", "local+noport", "local+noaddr", "local+bare", "listed-only"},
+	1: {"absent", "local", "local+same", "local+otherhost", "local+otherport", "local+noport", "local+bare", "listed-only"},
 	2: {"absent", "local", "local+same", "local+noaddr"},
 	3: {"absent", "local", "local+bare", "local+otherhost"},
 }
@@ -181,6 +181,9 @@ func c18ActiveEntry(i int, state string) string {
 		return "enode://" + id + "@9.9.9.9:30303"
 	case strings.HasSuffix(state, "+otherport"):
 		hp := strings.Replace(c18Addrs[i], ":30303", ":1234", 1)
+		return "enode://" + id + "@" + hp
+	case strings.HasSuffix(state, "+noport"):
+		hp := strings.Replace(c18Addrs[i], ":30303", "", 1)
 		return "enode://" + id + "@" + hp
 	case strings.HasSuffix(state, "+noaddr"):
 		return "enode://" + id + "@"
